@@ -10,7 +10,7 @@ for d in seeded/*/; do
   case "$out" in
     *"exit=1"*) echo "detected   $n: $out";;
     *"does not apply"*) echo "no-apply   $n";;
-    *) if grep -q '"expected": "shadowed"' "$d/meta.json"; then echo "shadowed   $n (see meta.json)"; else echo "MISSED     $n: $out"; bad=1; fi;;
+    *) if grep -q '"expected": "shadowed"' "$d/meta.json"; then echo "shadowed   $n (see meta.json)"; elif grep -q '"expected": "not_detected"' "$d/meta.json"; then echo "undetected $n (documented, see meta.json)"; else echo "MISSED     $n: $out"; bad=1; fi;;
   esac
 done
 exit $bad
